@@ -108,6 +108,29 @@ func (p *propC10) Prepare(seed uint64, tier string) int {
 		}}
 		p.pool = append(p.pool, poolEntry{Name: fmt.Sprintf("devdata%d", i), Bytes: rs.Build(), Med: Medium{Records: rs}, FT: 4})
 	}
+	// definitions with 86, 200 and 255 developer fields (counts and byte lengths
+	// beyond what fits a byte once multiplied by the descriptor size)
+	for i, nd := range []int{86, 200, 255} {
+		r := NewRng(seed, "C10/manydev", i)
+		d := &DefOp{Local: 2, Arch: []string{"le", "be", "le"}[i], Global: 20, Fields: [][3]int{{3, 1, 2}, {4, 1, 2}}}
+		tot := 2
+		for k := 0; k < nd; k++ {
+			sz := r.Intn(3)
+			d.Dev = append(d.Dev, [3]int{k, sz, r.Intn(4)})
+			tot += sz
+		}
+		rs := &RecStream{Header: HeaderSpec{Size: 12 + 2*(i%2), Proto: 0x20, Profile: 2115, HCRC: "ok"}, Ops: []Op{
+			{Def: &DefOp{Local: 0, Arch: "le", Global: 0, Fields: [][3]int{{0, 1, 0}}}},
+			{Data: &DataOp{Local: 0, Bytes: "04"}},
+			{Def: d},
+			{Data: &DataOp{Local: 2, Bytes: hexs(r.Bytes(tot))}},
+			{Data: &DataOp{Local: 2, Bytes: hexs(r.Bytes(tot))}},
+			{Def: &DefOp{Local: 3, Arch: "le", Global: 20, Fields: [][3]int{{3, 1, 2}}}},
+			{Data: &DataOp{Local: 3, Bytes: "55"}},
+			{Data: &DataOp{Local: 2, Bytes: hexs(r.Bytes(tot))}},
+		}}
+		p.pool = append(p.pool, poolEntry{Name: fmt.Sprintf("manydev%d", nd), Bytes: rs.Build(), Med: Medium{Records: rs}, FT: 4})
+	}
 	for i, rs := range stateProbeStreams(NewRng(seed, "C10/stateprobe", 0)) {
 		b := rs.Build()
 		f := parseFrame(b, 0)
